@@ -7,6 +7,10 @@
 //        method 0 Isomap, 1 Landmark Isomap (landmark_ratio 1); nm 0 brute, 1 vptree, 2 covertree;
 //        integer points under the L1 metric (dim 1 or 2); target dimension 1; dense eigensolver
 //        -> "R A ok <number of non-finite coordinates>"  |  "R A exc <what>"
+//   AW <method> <nm> <k> <dim> <N> <e> <T> <id_0 .. id_{N-1}> <T*dim ints>
+//        the same call over a NON-IDENTITY index range: the table holds T points, embedUsing gets the vector
+//        (id_0, .., id_{N-1}) of ids into the table (any order, any offset); the callback returns ldexp(L1, e)
+//        -> as A
 //
 // A line "C <n>" is printed and flushed before each case so that an abort can be attributed.
 #include <tapkee/tapkee.hpp>
@@ -25,6 +29,7 @@ struct Points
 {
     int dim;
     std::vector<long long> xs;
+    int scale_exp = 0;
 };
 
 struct l1_distance_callback
@@ -35,7 +40,7 @@ struct l1_distance_callback
         long long s = 0;
         for (int c = 0; c < pts->dim; c++)
             s += std::llabs(pts->xs[a * pts->dim + c] - pts->xs[b * pts->dim + c]);
-        return (ScalarType)s;
+        return pts->scale_exp == 0 ? (ScalarType)s : (ScalarType)std::ldexp((double)s, pts->scale_exp);
     }
 };
 
@@ -65,21 +70,33 @@ int main()
         is >> cmd;
         printf("C %ld\n", ncase++);
         fflush(stdout);
-        if (cmd != "A") { printf("R ? unknown-command\n"); fflush(stdout); continue; }
-        int m, nm, k, dim, N;
+        if (cmd != "A" && cmd != "AW") { printf("R ? unknown-command\n"); fflush(stdout); continue; }
+        int m, nm, k, dim, N, e = 0, T = 0;
         is >> m >> nm >> k >> dim >> N;
         Points pts;
         pts.dim = dim;
         bool ok = !is.fail() && dim >= 1 && dim <= 8 && N >= 0 && N < 100000;
+        std::vector<IndexType> idx(ok ? N : 0);
+        if (ok && cmd == "AW")
+        {
+            is >> e >> T;
+            ok = !is.fail() && T >= 0 && T < 200000 && e >= -300 && e <= 300;
+            for (int i = 0; i < N && ok; i++)
+                if (!(is >> idx[i]) || idx[i] < 0 || idx[i] >= T) ok = false;
+        }
+        else if (ok)
+        {
+            T = N;
+            for (int i = 0; i < N; i++) idx[i] = i;
+        }
         if (ok)
         {
-            pts.xs.resize((size_t)N * dim);
+            pts.scale_exp = e;
+            pts.xs.resize((size_t)T * dim);
             for (size_t i = 0; i < pts.xs.size() && ok; i++)
                 if (!(is >> pts.xs[i])) ok = false;
         }
         if (!ok) { printf("R A bad-input\n"); fflush(stdout); continue; }
-        std::vector<IndexType> idx(N);
-        for (int i = 0; i < N; i++) idx[i] = i;
         l1_distance_callback dcb{&pts};
         try
         {
